@@ -15,7 +15,7 @@ PROFILES = {
     "accum":     dict(sig=3, slot=3, conn=2, block=3, emit=5, clear=1, track=1, handle=0, slotval=0, scoped=0, chain=0, reent=1, throw=0, acc=8),
 }
 
-SHAPES_BY_NREFS = {0: ["p", "p", "p", "v"], 1: ["m", "n", "b", "t"], 2: ["b", "t", "u"], 3: ["b", "t"]}
+SHAPES_BY_NREFS = {0: ["p", "p", "p", "v"], 1: ["m", "n", "k", "b", "t"], 2: ["b", "t", "u"], 3: ["b", "t"]}
 
 
 class Gen:
@@ -490,7 +490,7 @@ def scenario_owner_sweep(r):
     sid = 0
     for k in order:
         if k == "A":
-            shape = r.choice("mnbt")
+            shape = r.choice("mnkbt")
             main.append("snew %d %s %d %s 1 %d" % (sid, rk, ba, shape, T))
         elif k == "B":
             main.append("snew %d %s %d p 0" % (sid, rk, bo))
@@ -523,7 +523,23 @@ def scenario_owner_sweep(r):
     return " ".join(" ".join(parts).split())
 
 
-SCENARIOS = [scenario_owner_sweep]
+def scenario_deep_recursion(r):
+    """N slots on one signal, each disconnecting itself and re-emitting: recursion depth N on the same
+    signal (the execution counter must count that far), with a deferred sweep at the very end"""
+    n = r.choice([40, 130, 300])
+    rk = r.choice("iv")
+    main = ["gnew 0 %s -1 0" % rk]
+    parts = []
+    for i in range(1, n + 1):
+        parts.append("S %d a 1 cdisc %d gemit 0 %d 1" % (i, i, i % 10))
+        main.append("snew %d %s %d p 0" % (i, rk, i))
+        main.append("gconn 0 %d %d 0 0" % (i, i))
+    main += ["gemit 0 1 1", "gq 0", "gemit 0 2 1", "gq 0", "gdel 0"]
+    main += ["sdel %d" % i for i in range(1, n + 1)] + ["cdel %d" % i for i in range(1, n + 1)]
+    return " ".join(parts) + " M " + " ".join(main)
+
+
+SCENARIOS = [scenario_owner_sweep] * 9 + [scenario_deep_recursion]
 
 
 def scenarios(seed, count):
